@@ -176,8 +176,11 @@ def run(ctx):
     mc = cm.body_or_fail(ctx, p, "C01-R1", "mlpg_adjust::mask::Mask::create")
     if mc is not None:
         ret = show(ExprBuilder(mc).local(0))
+        from .c11 import mask_loop_form
         if "IterExt>::duration(std::iter::Iterator::map(stream" in ret and ret.count("durations") == 1 and "collect" in ret:
             ctx.ok("C01-R1", "Mask::create = collect(duration(map(stream.iter(), flag), durations))", mc.loc())
+        elif mask_loop_form(mc)[0]:
+            ctx.ok("C01-R1", "Mask::create pushes one flag per frame: for every state of stream.zip(durations), `duration` times (loop form)", mc.loc())
         else:
             ctx.fail("C01-R1", mc.path, "mask expansion", "mask is %s" % ret[:200], mc.loc())
     du = cm.body_or_fail(ctx, p, "C01-R1", "<I as mlpg_adjust::IterExt>::duration")
